@@ -27,7 +27,7 @@ RULE = ("history = a configuration endpoint and up to 8 node servers behind one 
         "client connects to while routing the corpus is advertised (with >= 50 keys and <= 6 nodes: all advertised "
         "nodes are used); no command reaches a node that is no longer advertised; every key-addressed call succeeds; "
         "sockets to replaced nodes are closed; the ERROR endpoint makes construction fail with a MemcacheError "
-        "(MemcacheUnknownCommandError), without waiting for an end token that will never come. Non-trivial: a "
+        "(MemcacheUnknownCommandError), without waiting for an end token that will never come. Clients side by side: two ElastiCache clients for two clusters (each behind its own endpoint and fake network; overlapping or disjoint node sets, any use_vpc mix, pooled or not) alive in one process and used alternately / one after the other with the same keys, optionally with a re-discovery of one of them half-way: every set/get of a client reaches exactly one node its own endpoint advertises and nothing of the other cluster. Non-trivial: a "
         "scale-down or replacement followed by traffic, or a reply cut inside the node line or the end token.")
 MANIFEST = {
     "category": "exploration",
@@ -226,6 +226,60 @@ def fixed_history_cases(tier, seed):
                 yield {"steps": h, "fail_before": fb, "retry_attempts": ra, "use_vpc": vpc, "pooling": bool(ra % 2), "nkeys": 90}
 
 
+# ---- several clients in one process --------------------------------------------------------------------------------
+
+def side_by_side_cases(tier, seed):
+    sets = [([0, 1, 2], [3, 4, 5]), ([0, 1], [0, 1]), ([0, 1, 2, 3], [2]), ([5], [6, 7, 0])]
+    for a, b in sets:
+        for vpcs in ((True, True), (True, False), (False, False)):
+            for pooling in (False, True):
+                for pattern in ("alternate", "a-then-b", "b-then-a"):
+                    for reconf in (None, [1, 2, 6]):
+                        yield {"a": a, "b": b, "vpc": list(vpcs), "pooling": pooling, "pattern": pattern, "reconfigure_a": reconf}
+
+
+def check_side_by_side(case):
+    """two ElastiCache clients (two clusters, each behind its own endpoint and network) alive in one process and used in
+    turn with the same keys: each talks to the nodes ITS endpoint advertises, whatever the other one did"""
+    worlds = [World(), World()]
+    idxs = [list(case["a"]), list(case["b"])]
+    desc = "clusters %r / %r, use_vpc %r, pooling %r, %s%s" % (case["a"], case["b"], case["vpc"], case["pooling"], case["pattern"],
+                                                             ", cluster A re-discovered as %r half-way" % case["reconfigure_a"] if case.get("reconfigure_a") else "")
+    with virtual_time(worlds[0].clock):
+        hcs = []
+        for w, ix, vpc in zip(worlds, idxs, case["vpc"]):
+            w.advertise(1, ix)
+            hcs.append(AWSElastiCacheHashClient(CFG, socket_module=w.net, use_vpc=vpc, use_pooling=case["pooling"], default_noreply=False, timeout=1))
+        keys = ["key-%d" % i for i in range(40)]
+        order = {"alternate": [(x, k) for k in keys for x in (0, 1)], "a-then-b": [(0, k) for k in keys] + [(1, k) for k in keys],
+                 "b-then-a": [(1, k) for k in keys] + [(0, k) for k in keys]}[case["pattern"]]
+        order = order + order[::-1]
+        for n, (x, k) in enumerate(order):
+            if case.get("reconfigure_a") and n == len(order) // 2:
+                idxs[0] = list(case["reconfigure_a"])
+                worlds[0].advertise(2, idxs[0])
+                hcs[0].reconfigure_nodes()
+            marks = [[len(nd.log) for nd in w.nodes] for w in worlds]
+            try:
+                ok = hcs[x].set(k, b"%d" % x)
+                got = hcs[x].get(k)
+            except Exception as e:  # noqa: BLE001
+                raise Violation(["side-by-side", "raises", type(e).__name__], "client %d raised %r on %r (operation %d): %s" % (x, e, k, n, desc))
+            touched = [[j for j, nd in enumerate(w.nodes) if len(nd.log) != m[j]] for w, m in zip(worlds, marks)]
+            if touched[1 - x]:
+                raise Violation(["side-by-side", "other-cluster-contacted"], "client %d's set/get of %r sent commands to nodes %r of the OTHER cluster (operation %d): %s" % (x, k, touched[1 - x], n, desc))
+            if len(touched[x]) != 1 or touched[x][0] not in idxs[x]:
+                raise Violation(["side-by-side", "not-an-advertised-node"], "client %d's set/get of %r went to nodes %r, its endpoint advertises %r (operation %d): %s" % (x, k, touched[x], idxs[x], n, desc))
+            if ok is not True or got != b"%d" % x:
+                raise Violation(["side-by-side", "wrong-answer"], "client %d: set/get of %r gave %r / %r (operation %d): %s" % (x, k, ok, got, n, desc))
+        for hc in hcs:
+            hc.close()
+    for x, w in enumerate(worlds):
+        if w.net.open_sockets():
+            raise Violation(["side-by-side", "socket-left-open"], "client %d left sockets open after close(): %s" % (x, desc))
+    return True, ["side-by-side", case["pattern"]]
+
+
 def history_strategy(tier):
     nodes = st.lists(st.integers(0, 7), min_size=1, max_size=6, unique=True)
     sched = st.one_of(st.none(), st.lists(st.sampled_from([1, 2, 3, 5, 8, 13, 50, 4096]), min_size=1, max_size=4))
@@ -238,6 +292,7 @@ def history_strategy(tier):
 PARTS = [
     Part("reply-segmentations", "enum", check, cases=segmentation_cases, exhaustive=True),
     Part("fixed-histories", "enum", check, cases=fixed_history_cases, shards={"quick": 4, "thorough": 8}),
+    Part("clients-side-by-side", "enum", check_side_by_side, cases=side_by_side_cases, shards={"quick": 4, "thorough": 8}, exhaustive=True),
     Part("random-histories", "hyp", check, strategy=history_strategy,
          examples={"quick": 60, "thorough": 4000}, shards={"quick": 4, "thorough": 16}),
 ]
